@@ -16,7 +16,7 @@ import copy as _copy
 import math
 from typing import Any, Dict, List, Optional, Tuple
 
-from .common import call, same, is_symbolic, PathAbort
+from .common import call, same, is_symbolic, PathAbort, replay_tiers
 
 PROP = "C03"
 INF = float("inf")
@@ -630,7 +630,7 @@ OUTSIDE = ["digits of printed numbers", "trees larger than the stated bounds", "
 
 def replay(obligation: str, witness):
     from sx.concrete import run_concrete
-    for tier in ("thorough", "quick"):
+    for tier in replay_tiers():
         for ob in obligations(tier):
             if ob.name == obligation:
                 reproduced, msg, _ = run_concrete(ob.harness, witness)
